@@ -250,7 +250,7 @@ pub fn configs(args: &Args) -> Vec<Cfg> {
     let thorough = args.thorough();
     let timeout_ms = if thorough { 120_000 } else { 20_000 };
     let mut v = vec![];
-    let nmax = if thorough { 6 } else { 4 };
+    let nmax = if thorough { 12 } else { 6 };
     for n in 2..=nmax {
         for symbolic_axis in [true, false] {
             let mut shapes: Vec<Vec<usize>> = vec![vec![], vec![2]];
@@ -260,7 +260,7 @@ pub fn configs(args: &Args) -> Vec<Cfg> {
             for trailing in shapes {
                 let entries: Vec<Entry> = if trailing.is_empty() { vec![Entry::Scalar, Entry::Interp, Entry::Array1] } else if thorough { vec![Entry::Interp, Entry::Array1, Entry::ArrayDyn] } else { vec![Entry::Interp, Entry::Array1] };
                 for entry in entries {
-                    if !thorough && n == 4 && symbolic_axis && trailing.len() == 1 && entry == Entry::Array1 {
+                    if false && !thorough && n == 4 && symbolic_axis && trailing.len() == 1 && entry == Entry::Array1 {
                         continue;
                     }
                     v.push(Cfg { n, trailing: trailing.clone(), symbolic_axis, entry, extrapolate: false, timeout_ms });
@@ -296,7 +296,7 @@ pub fn run(args: &Args) -> Report {
     for f in FUNCTIONS {
         rep.functions.insert(f.to_string());
     }
-    rep.bounds.push(format!("axis length n = 2..{}; explicit axis fully symbolic (every strictly increasing real axis) and the default index axis; trailing shapes (), (2), (2,2); entry points interp_scalar / interp / interp_array (Ix1 query{})", if args.thorough() { 6 } else { 4 }, if args.thorough() { ", IxDyn query" } else { "" }));
+    rep.bounds.push(format!("axis length n = 2..{}; explicit axis fully symbolic (every strictly increasing real axis) and the default index axis; trailing shapes (), (2), (2,2); entry points interp_scalar / interp / interp_array (Ix1 query{})", if args.thorough() { 12 } else { 6 }, if args.thorough() { ", IxDyn query" } else { "" }));
     rep.bounds.push("every data value and the query are solver variables (reals); query constrained to the closed axis range".into());
     rep.outside.push("floating-point rounding (the 'few ulps' clause): layer N, not decided".into());
     rep.outside.push("bracket selection for IEEE inputs (floats adjacent to knots, guess rounding) is decided by C11 (engine K) and C20 (mode O), not here".into());
